@@ -538,6 +538,10 @@ fn dump_fn<'tcx>(tcx: TyCtxt<'tcx>, def: LocalDefId, stolen: &mut usize) -> Opti
     let body: &Body<'tcx> = if phase == "built" && !steal.is_stolen() {
         guard = steal.borrow();
         &*guard
+    } else if matches!(tcx.def_kind(did), DefKind::Const { .. } | DefKind::AssocConst { .. }) {
+        // a constant's `mir_built` may already have been consumed by const evaluation (array lengths, patterns) that type
+        // checking of earlier items asked for; its const-eval MIR is equivalent for the purpose (the initialiser's value)
+        tcx.mir_for_ctfe(did)
     } else {
         if phase == "built" {
             *stolen += 1;
